@@ -1,7 +1,7 @@
 (* C14 - Ergodicity predicates agree with the transition graph.
    Statements only; proofs in Proofs/ErgodicFacts.v (on Proofs/QMatFacts.v). *)
 From Coq Require Import List ZArith Arith Bool QArith Qcanon.
-From MsmV Require Import Lib.Result Lib.PyList Lib.QMat Model.Ergodic Proofs.QMatFacts Proofs.ErgodicFacts.
+From MsmV Require Import Lib.Result Lib.PyList Lib.QMat Model.Ergodic Proofs.QMatFacts Proofs.ErgodicFacts Proofs.ErgodicFinite.
 Import ListNotations.
 Local Open Scope nat_scope.
 
@@ -45,6 +45,15 @@ Print Assumptions ergodic_complete_loop_partial.
 Theorem wielandt_exponent_covers_loop_bound : forall n, 1 <= n -> 2 * (n - 1) <= wexp n.
 Proof. exact wexp_ge. Qed.
 Print Assumptions wielandt_exponent_covers_loop_bound.
+
+(* completeness, finite part: for ALL transition graphs on at most 4 vertices the power
+   test with the Wielandt exponent agrees with the independent graph test (strongly
+   connected by lazy closure, period 1); exhaustive enumeration inside the kernel
+   (vm_compute over all 2^16 + 2^9 + 2^4 + 2 graphs), bound in the statement *)
+Theorem ergodic_complete_le4 : forall n G, bwf n G -> 1 <= n -> n <= 4 ->
+  graph_ergodic G = ball (bpow G (wexp n)).
+Proof. exact wielandt_le4. Qed.
+Print Assumptions ergodic_complete_le4.
 
 Theorem walks_monotone_thm : forall n G k, bwf n G -> 1 <= k ->
   (forall i j, i < n -> j < n -> walk G k i j) ->
